@@ -88,6 +88,13 @@ def cases(tier, seed):
                         'solver': solver, 'method': None, 'backend': 'default', 'vectorize': False})
             out.append({'dt': 0.1, 'dts': 0.2, 'T': 1.0, 'cutoff': 0.4, 'cut': 'ongrid', 'model': model,
                         'solver': solver, 'method': None, 'backend': 'default', 'vectorize': False, 'decimal': True})
+    # decimal (T, dt) pairs whose float quotient falls just below an integer (0.3/0.1 = 2.9999999999999996)
+    for T, dt in ((0.3, 0.1), (0.7, 0.1), (1.2, 0.05), (0.6, 0.1), (2.3, 0.01), (0.7, 1e-3)):
+        for model in ('decay', 'rot'):
+            for solver in ('euler', 'heun'):
+                for dts in (None, dt):
+                    out.append({'dt': dt, 'dts': dts, 'T': T, 'cutoff': 0.0, 'cut': 'zero', 'model': model, 'solver': solver,
+                                'method': None, 'backend': 'default', 'vectorize': False, 'decimal': True})
     # adaptive solvers against closed forms (incl. the time-dependent model)
     for model in ('decay', 'rot', 'edge', 'tdep', 'inp'):
         for method in ('RK45', 'DOP853', 'Radau') if tier != 'quick' else ('RK45', 'DOP853'):
